@@ -5,7 +5,9 @@ use crate::explore::{Acc, SpaceReport};
 use crate::json::{self, J};
 use std::time::Instant;
 
-pub const VERIF_DIR: &str = "/verif";
+pub fn verif_dir() -> String {
+    std::env::var("VERIF_DIR").unwrap_or_else(|_| "/verif".to_string())
+}
 
 pub struct Outcome {
     pub acc: Acc,
@@ -32,7 +34,7 @@ pub struct Known {
 }
 
 pub fn load_known() -> Result<Known, String> {
-    let path = format!("{}/known_findings.json", VERIF_DIR);
+    let path = format!("{}/known_findings.json", verif_dir());
     let text = match std::fs::read_to_string(&path) {
         Ok(t) => t,
         Err(_) => return Ok(Known { findings: vec![] }),
@@ -68,8 +70,8 @@ pub fn finish(prop: &str, tier: &str, seed: i64, t0: Instant, out: Outcome, mode
         out!("check {} aborted: {} machinery error(s); no verdict, evidence not written as a pass", prop, out.acc.errors.len());
         return 2;
     }
-    let _ = std::fs::create_dir_all(format!("{}/replays", VERIF_DIR));
-    let _ = std::fs::create_dir_all(format!("{}/evidence", VERIF_DIR));
+    let _ = std::fs::create_dir_all(format!("{}/replays", verif_dir()));
+    let _ = std::fs::create_dir_all(format!("{}/evidence", verif_dir()));
 
     let mut unknown = vec![];
     let mut known_hit = vec![];
@@ -91,7 +93,7 @@ pub fn finish(prop: &str, tier: &str, seed: i64, t0: Instant, out: Outcome, mode
     }
     let mut code = 0;
     for (n, v) in unknown.iter().enumerate() {
-        let path = format!("{}/replays/{}-{}.json", VERIF_DIR, prop, n + 1);
+        let path = format!("{}/replays/{}-{}.json", verif_dir(), prop, n + 1);
         let j = json::obj(vec![("property", json::s(prop)), ("key", json::s(v.key.clone())), ("what", json::s(v.what.clone())), ("tier", json::s(tier)), ("replay", v.replay.clone())]);
         if let Err(e) = std::fs::write(&path, j.to_string()) {
             out!("MACHINERY-ERROR: cannot write {}: {}", path, e);
@@ -104,7 +106,7 @@ pub fn finish(prop: &str, tier: &str, seed: i64, t0: Instant, out: Outcome, mode
         code = 1;
     }
     if !surplus_unknown.is_empty() {
-        let path = format!("{}/replays/{}-more.json", VERIF_DIR, prop);
+        let path = format!("{}/replays/{}-more.json", verif_dir(), prop);
         let j = json::obj(vec![("property", json::s(prop)), ("further_violation_keys", json::strs(&surplus_unknown))]);
         let _ = std::fs::write(&path, j.to_string());
         if code == 0 {
@@ -149,7 +151,7 @@ pub fn finish(prop: &str, tier: &str, seed: i64, t0: Instant, out: Outcome, mode
         ("wall_s".into(), J::Num(wall)),
         ("violations".into(), json::i(unknown_count)),
     ]);
-    let epath = format!("{}/evidence/{}.json", VERIF_DIR, prop);
+    let epath = format!("{}/evidence/{}.json", verif_dir(), prop);
     if let Err(e) = std::fs::write(&epath, ev.to_string()) {
         out!("MACHINERY-ERROR: cannot write {}: {}", epath, e);
         return 2;
